@@ -193,6 +193,39 @@ Theorem C18_alias_getattr_canonical_twin ALIASES PREFERRED am :
   forall n s, alias_getattr_var am n s = getattr_var (chain_end ALIASES n) s.
 Proof. exact (alias_getattr_canonical_twin ALIASES PREFERRED am). Qed.
 
+(* ---------------------------------------------------------------- read-only hooks of the mixin *)
+(* _ipython_key_completions_, dir(), `in`, nbytes: calling them changes NOTHING (in particular the container's `index` is not the
+   list handed out); the completion hook offers the variables followed by the declared non-trivial aliases; dir() adds the aliases
+   to the plain object's answer; nbytes is the plain object's (no alias named like a variable) *)
+Theorem C18_alias_hooks_change_nothing am q s : fst (alias_read am q s) = s.
+Proof. exact (alias_hooks_change_nothing am q s). Qed.
+
+Theorem C18_alias_completions_declared ALIASES PREFERRED am s :
+  NoDup (akeys ALIASES) ->
+  (forall k, In k (akeys (drop_self ALIASES)) -> exists n, ~ In (follow n (drop_self ALIASES) k) (akeys (drop_self ALIASES))) ->
+  alias_construct ALIASES PREFERRED = Ret am ->
+  snd (alias_read am QCompletions s) = Ret (VNames (index s ++ akeys (drop_self ALIASES))).
+Proof. exact (alias_completions_declared ALIASES PREFERRED am s). Qed.
+
+Theorem C18_alias_dir am s :
+  snd (alias_read am QDir s) =
+    match snd (read QDir s) with Ret (VNames l) => Ret (VNames (l ++ akeys (amap am))) | r => r end.
+Proof. exact (alias_dir am s). Qed.
+
+Theorem C18_alias_nbytes am s :
+  (forall x, In x (index s) -> ~ In x (akeys (amap am))) ->
+  snd (alias_read am QNbytes s) = snd (read QNbytes s).
+Proof. exact (alias_nbytes am s). Qed.
+
+(* kept finding: `in` is not wrapped - it answers False for an alias whose variable it answers True for, although item access
+   through the two names is the same *)
+Theorem C18_alias_not_a_member_refuted :
+  exists am s n, WFam am /\ Inv s /\ In n (akeys (amap am)) /\
+    snd (alias_read am (QContains (resolve am n)) s) = Ret (VBool true) /\
+    snd (alias_read am (QContains n) s) = Ret (VBool false) /\
+    alias_getitem am (KName n) s = alias_getitem am (KName (resolve am n)) s.
+Proof. exact alias_not_a_member_refuted. Qed.
+
 (* ---------------------------------------------------------------- to_dataframe(use_aliases=True) *)
 (* never raises on a constructed object (the ambiguity is rejected by __init__), one column per exported variable *)
 Theorem C18_export_total am :
@@ -258,6 +291,12 @@ Print Assumptions C18_alias_trace_canonical_twin.
 Print Assumptions C18_alias_init_canonical_twin.
 Print Assumptions C18_alias_read_canonical_twin.
 Print Assumptions C18_alias_getattr_canonical_twin.
+Print Assumptions C18_alias_hooks_change_nothing.
+Print Assumptions C18_alias_completions_declared.
+Print Assumptions C18_alias_dir.
+Print Assumptions C18_alias_nbytes.
+Print Assumptions C18_alias_not_a_member_refuted.
+Print Assumptions hooks_on_mA.
 Print Assumptions C18_export_total.
 Print Assumptions C18_export_rename_only.
 Print Assumptions C18_preferred_title.
